@@ -80,6 +80,15 @@ const char *Args::Params(const char *token, size_t &index)
       if (  arg_len >= token_len
          && (memcmp(token, m_values[idx], token_len) == 0))
       {
+         // A long option matches as a whole word or as '--option=value' only,
+         // otherwise '--file' would swallow '--files'
+         if (  arg_len > token_len
+            && token_len > 2
+            && token[1] == '-'
+            && m_values[idx][token_len] != '=')
+         {
+            continue;
+         }
          SetUsed(idx);
 
          if (arg_len > token_len)
